@@ -226,7 +226,7 @@ func (e *Env) eval(x Expr) Val {
 				saved[qv.Name] = nil
 			}
 			srt, typ := e.typeByName(qv.Type)
-			nm := "q_" + qv.Name + "_" + strconv.Itoa(fc.B.n)
+			nm := "qv!" + qv.Name + "!" + strconv.Itoa(fc.B.n)
 			fc.B.n++
 			e.vars[qv.Name] = Val{S: srt, T: nm, Typ: typ}
 			binds = append(binds, "("+nm+" "+srt+")")
@@ -509,7 +509,7 @@ func (e *Env) binary(n *EBinary) Val {
 			t = eq(as, bs)
 		case strings.HasPrefix(a.S, "(Slice") && a.S == b.S:
 			// extensional slice equality
-			q := "q_i_" + strconv.Itoa(e.fc.B.n)
+			q := "qv!i!" + strconv.Itoa(e.fc.B.n)
 			e.fc.B.n++
 			t = fmt.Sprintf("(and (= (s_len %s) (s_len %s)) (forall ((%s Int)) (=> (and (<= 0 %s) (< %s (s_len %s))) (= (select (s_arr %s) %s) (select (s_arr %s) %s)))))", a.T, b.T, q, q, q, a.T, a.T, q, b.T, q)
 		default:
@@ -656,6 +656,13 @@ func (e *Env) callExpr(n *ECall) Val {
 				}
 			}
 			return e.fail("store(ctx): receiver has no storeService/storeKey field")
+		case "nth":
+			v := argv(0)
+			k, err := strconv.Atoi(n.Args[1].String())
+			if err != nil || k >= len(v.Tuple) {
+				return e.fail("nth: bad index")
+			}
+			return v.Tuple[k]
 		case "withKV":
 			w := argv(0)
 			return Val{S: "WorldS", T: "(mkW (store (w_kv " + w.T + ") " + svcID(argv(1)) + " " + argv(2).T + ") (w_led " + w.T + ") (w_aux " + w.T + "))"}
@@ -844,6 +851,8 @@ func (e *Env) goCall(fn *ssa.Function, recv *Val, argExprs []Expr) Val {
 		args = append(args, v)
 	}
 	np, ns := len(fc.panicSites), len(fc.safetySites)
+	fc.inSpec++
+	defer func() { fc.inSpec-- }()
 	var res []Val
 	if p, ok := staticPrelude[fn.String()]; ok {
 		fr := fc.newFrame(fn, 1, "true")
@@ -871,7 +880,9 @@ func (e *Env) goCall(fn *ssa.Function, recv *Val, argExprs []Expr) Val {
 	if len(res) == 1 {
 		return res[0]
 	}
-	return Val{Tuple: res, Typ: fn.Signature.Results(), S: res[0].S, T: res[0].T}
+	r0 := res[0]
+	r0.Tuple = res
+	return r0
 }
 
 func (e *Env) preludeCall(name string, argExprs []Expr) Val {
@@ -909,6 +920,10 @@ func (e *Env) coerce(v Val, t types.Type) Val {
 		return Val{S: "String", T: "(b_s " + v.T + ")", Typ: t}
 	case v.S == "Nil":
 		return Val{S: s, T: e.fc.zero(t), Typ: t}
+	case s == "Iface" && v.Typ != nil && v.S != "Iface":
+		nv := Val{S: "Iface", T: "(mkI " + e.fc.B.Tag(v.Typ) + " " + e.fc.B.Box(v.Typ, v.T) + ")", Typ: t}
+		nv.Fn = &FnVal{Special: "dyn", Data: []Val{v}}
+		return nv
 	}
 	return v
 }
